@@ -42,21 +42,41 @@ type conRun struct {
 	out    []byte            // library encoding
 	want   []byte            // reference deterministic encoding
 	skip   string            // non-empty: signing/encoding refused (not judged here)
+	spies  []*bridge.SpySigner
+	vspies []*bridge.SpyVerifier
+}
+
+// corrupted reports whether the bytes handed to some key changed while the
+// key was still using them.
+func (r *conRun) corrupted() bool {
+	for _, s := range r.spies {
+		if s.Corrupted {
+			return true
+		}
+	}
+	for _, v := range r.vspies {
+		if v.Corrupted {
+			return true
+		}
+	}
+	return false
 }
 
 func (r *conRun) factory(km refcose.KeyMat, where string) (cose.Signer, cose.Verifier, error) {
-	s := &bridge.SpySigner{Alg: cose.Algorithm(km.Alg), Inner: func(tbs []byte) []byte {
+	s := &bridge.SpySigner{Alg: cose.Algorithm(km.Alg), Reenter: reenterLibrary, Inner: func(tbs []byte) []byte {
 		r.mu.Lock()
 		r.libTBS[where] = append([]byte{}, tbs...)
 		r.mu.Unlock()
 		return dummySig(tbs)
 	}}
-	v := &bridge.SpyVerifier{Alg: cose.Algorithm(km.Alg), Fn: func(c, sig []byte) error {
+	r.spies = append(r.spies, s)
+	v := &bridge.SpyVerifier{Alg: cose.Algorithm(km.Alg), Reenter: reenterLibrary, Fn: func(c, sig []byte) error {
 		if !bytes.Equal(sig, dummySig(c)) {
 			return cose.ErrVerification
 		}
 		return nil
 	}}
+	r.vspies = append(r.vspies, v)
 	return s, v, nil
 }
 
@@ -260,6 +280,35 @@ func checkC08(c c08Case) error {
 			return finding("unstable", "repeated MarshalCBOR differs (err=%v)\n first=%x\n again=%x", err, r.out, again)
 		}
 	}
+	// encoding is read-only, and a later change to the in-memory message shows in the next encoding
+	snap := bridge.Dump(r.m.s1) + bridge.Dump(r.m.u1) + bridge.Dump(r.m.sm)
+	if _, err := r.m.marshal(); err != nil || bridge.Dump(r.m.s1)+bridge.Dump(r.m.u1)+bridge.Dump(r.m.sm) != snap {
+		return finding("encoding-modifies-message", "MarshalCBOR changed the in-memory message (err=%v)", err)
+	}
+	if r.m.headers().Unprotected == nil {
+		r.m.headers().Unprotected = cose.UnprotectedHeader{}
+	}
+	if _, clash := r.m.headers().Unprotected["added-after-first-encoding"]; !clash {
+		r.m.headers().Unprotected["added-after-first-encoding"] = int64(1)
+		later, err := r.m.marshal()
+		delete(r.m.headers().Unprotected, "added-after-first-encoding")
+		if err != nil {
+			return finding("stale-encoding", "encoding fails after adding an unprotected parameter: %v", err)
+		}
+		env2, err := refcose.ParseEnv(kind, later)
+		if err != nil {
+			return finding("unparseable", "%v", err)
+		}
+		found := false
+		for _, k := range env2.Unprot.Keys {
+			if k.Major == 3 && string(k.Content) == "added-after-first-encoding" {
+				found = true
+			}
+		}
+		if !found {
+			return finding("stale-encoding", "a parameter added to Headers.Unprotected after the first MarshalCBOR is missing from the second encoding\nfirst =%x\nsecond=%x", r.out, later)
+		}
+	}
 	// another insertion order of the same logical maps
 	r2, err := runConstructed(&c.Spec, true)
 	if err != nil {
@@ -419,6 +468,21 @@ type c08HdrCase struct {
 }
 
 func checkC08Headers(c c08HdrCase) error {
+	if hasDupLabels(c.Prot) || hasDupLabels(c.Unprot) {
+		// one label spelt with two Go integer types: must never be encodable (the output would hold a duplicate key)
+		if hasDupLabels(c.Prot) {
+			if out, err := bridge.ToProtected(c.Prot).MarshalCBOR(); err == nil {
+				return finding("duplicate-label-encoded", "ProtectedHeader with one label under two Go integer types is encoded: %x", out)
+			}
+		}
+		if hasDupLabels(c.Unprot) {
+			if out, err := bridge.ToUnprotected(c.Unprot, bridge.CsigParsed).MarshalCBOR(); err == nil {
+				return finding("duplicate-label-encoded", "UnprotectedHeader with one label under two Go integer types is encoded: %x", out)
+			}
+		}
+		stats.Class("duplicate-spelling-refused")
+		return nil
+	}
 	for pass := 0; pass < 2; pass++ {
 		p, u := c.Prot, c.Unprot
 		if pass == 1 {
@@ -489,6 +553,27 @@ func TestC08_Headers(t *testing.T) {
 			o.Alg = &a
 		}
 		p, u := gen.Headers(rt, o)
+		if rapid.IntRange(0, 9).Draw(rt, "dup-spelling") == 0 {
+			// the same integer label once more under another Go integer type
+			tgt := &p
+			if rapid.Bool().Draw(rt, "dup-in-unprotected") {
+				tgt = &u
+			}
+			var ints []int
+			for i, e := range tgt.M {
+				if e.K.K == rc.KInt {
+					ints = append(ints, i)
+				}
+			}
+			if len(ints) > 0 {
+				e := tgt.M[rapid.SampledFrom(ints).Draw(rt, "dup-entry")]
+				li, _ := e.K.Int64()
+				sp := uint8(rapid.IntRange(0, rc.NumSpellings-1).Draw(rt, "dup-sp"))
+				if sp != e.K.Sp && (sp == rc.SpInt64 || bridge.SpellingFits(li, sp)) && (e.K.Sp == rc.SpInt64 || bridge.SpellingFits(li, e.K.Sp)) {
+					tgt.M = append(tgt.M, rc.KV{K: rc.IntSp(li, sp), V: e.V})
+				}
+			}
+		}
 		stats.Eval()
 		judge(rt, "c08hdr", c08HdrCase{p, u}, checkC08Headers)
 	})
